@@ -153,6 +153,54 @@ func lemmaObl(name, fn, inst, prop string, ctx *Ctx, assume []*Term, goal *Term,
 	return &Obligation{Name: fn + "[" + inst + "]/lemma:" + name, Kind: "lemma", Props: []string{prop}, Assume: assume, Goal: goal, Ctx: ctx, Fn: fn, InstName: inst, Logic: logic}
 }
 
+// exactLemmaObl: a lemma over extracted kernels decided in the exact scaled-integer
+// model: unsatisfiability of the disjunction of the refuting path cases.
+func exactLemmaObl(name, fn, inst, prop string, x *Term, width int, signed bool, assume []*Term, goal *Term) []*Obligation {
+	ctx := NewCtx()
+	res := exactLemma(ctx, x, width, signed, assume, goal)
+	o := &Obligation{Name: fn + "[" + inst + "]/lemma:" + name, Kind: "lemma", Props: []string{prop}, Ctx: ctx, Fn: fn, InstName: inst, Logic: "QF_LIA"}
+	if res.Err != "" {
+		o.Goal = False
+		o.Note = "the exact-model translator does not know an operation of the kernel: " + res.Err
+		return []*Obligation{o}
+	}
+	o.Assume = []*Term{res.Range}
+	o.Goal = Not(Or(res.Cases...))
+	o.Note = fmt.Sprintf("exact model: %d path cases enumerated, %d refuting cases in the query, %d rounding steps", res.PathCases, len(res.Cases), res.Roundings)
+	out := []*Obligation{o}
+	// vacuity guard of the enumeration: sample codes of the assumed domain (its ends, binade
+	// boundaries, an odd code in the middle) must each be admitted by some enumerated path case
+	if res.DomLo != nil && len(res.All) > 0 {
+		one := big.NewInt(1)
+		seen := map[string]bool{}
+		var pts []*big.Int
+		addPt := func(n *big.Int) {
+			if n.Cmp(res.DomLo) >= 0 && n.Cmp(res.DomHi) <= 0 && !seen[n.String()] {
+				seen[n.String()] = true
+				pts = append(pts, n)
+			}
+		}
+		span := new(big.Int).Sub(res.DomHi, res.DomLo)
+		addPt(res.DomLo)
+		addPt(new(big.Int).Add(res.DomLo, one))
+		addPt(res.DomHi)
+		addPt(new(big.Int).Sub(res.DomHi, one))
+		addPt(new(big.Int).Add(res.DomLo, new(big.Int).Rsh(span, 1)))
+		addPt(new(big.Int).Add(res.DomLo, new(big.Int).Add(new(big.Int).Div(span, big.NewInt(3)), one)))
+		addPt(big.NewInt(0))
+		addPt(big.NewInt(-1))
+		addPt(pow2(width - 2))
+		addPt(new(big.Int).Sub(pow2(width-2), one))
+		addPt(new(big.Int).Add(pow2(width-1), pow2(width-2)))
+		for i, c := range pts {
+			out = append(out, &Obligation{Name: fmt.Sprintf("%s[%s]/cover:%s:%d", fn, inst, name, i), Kind: "cover", Props: []string{prop}, Ctx: ctx, Fn: fn, InstName: inst, Logic: "QF_LIA",
+				Assume: []*Term{res.Range, Eq(res.X, IntBig(c)), Or(res.All...)}, Cover: true,
+				Note: "exact model: code " + c.String() + " is admitted by an enumerated path case"})
+		}
+	}
+	return out
+}
+
 func kernelFailObl(ki *KernelInfo, prop string) *Obligation {
 	return &Obligation{Name: ki.Fn + "[" + ki.Inst.Name + "]/kernel-extracted", Kind: "kernel-local", Props: []string{prop}, Goal: False, Ctx: NewCtx(),
 		Fn: ki.Fn, InstName: ki.Inst.Name, Note: ki.Why}
@@ -439,7 +487,15 @@ func (s *Session) lemmasC09(tier string) ([]*Obligation, []interface{}) {
 				}
 			}
 			if isF64 && d <= 32 {
-				add("injective", []*Term{ltCode(ki.S, x, y)}, fpLt(kx, ky))
+				if isUnsignedT(ki.S) {
+					// codes 0 and 1 are a recorded finding of UnsignedAsFloat (known_findings.txt); that
+					// one pair is its own obligation, so that any other loss of injectivity is still reported
+					zc := bvConst(big.NewInt(0), d)
+					add("injective", []*Term{ltCode(ki.S, x, y), Not(Eq(x, zc))}, fpLt(kx, ky))
+					add("injective-codes-0-1", []*Term{Eq(x, zc), Eq(y, bvConst(big.NewInt(1), d))}, fpLt(kx, ky))
+				} else {
+					add("injective", []*Term{ltCode(ki.S, x, y)}, fpLt(kx, ky))
+				}
 				if kb != nil && kb.OK {
 					// split by sign of the amplitude (the positive half is the hard one)
 					rt := Eq(kb.apply(ki.apply(x)), x)
@@ -457,6 +513,25 @@ func (s *Session) lemmasC09(tier string) ([]*Obligation, []interface{}) {
 				r := kb.apply(ki.apply(x))
 				da := mk("bvsub", SBV(W), u.amp(ki.S, r, W), amp)
 				add("roundtrip-float32-within-one", nil, And(mk("bvsle", SBool, BVLit64(-1, W), da), mk("bvsle", SBool, da, BVLit64(1, W))))
+			}
+			// exact scaled-integer model (exactfp.go): the same statements over the same extracted
+			// kernels, for all codes of 16- and 32-bit sources (and again for 8 bit, where the
+			// FloatingPoint-theory lemma above decides it too)
+			if kb != nil && kb.OK {
+				var assume []*Term
+				var goal *Term
+				name := ""
+				switch {
+				case isF64 && d <= 32:
+					name, assume, goal = "roundtrip-positive-exact", []*Term{posAmp}, Eq(kb.apply(ki.apply(x)), x)
+				case !isF64 && d <= 16:
+					r := kb.apply(ki.apply(x))
+					da := mk("bvsub", SBV(W), u.amp(ki.S, r, W), amp)
+					name, goal = "roundtrip-float32-within-one-exact", And(mk("bvsle", SBool, BVLit64(-1, W), da), mk("bvsle", SBool, da, BVLit64(1, W)))
+				}
+				if name != "" {
+					out = append(out, exactLemmaObl(name, key, in.Name, "C09", x, d, isSignedT(ki.S), assume, goal)...)
+				}
 			}
 		}
 	}
